@@ -246,7 +246,7 @@ func soak(c *simkit.Choices, x *simkit.Ctx) *simkit.Violation {
 	return nil
 }
 
-var primTypes = map[string]bool{"Prims": true, "PInt16": true, "[]PUint32": true, "IntList": true, "Lists": true}
+var primTypes = map[string]bool{"Prims": true, "PInt16": true, "[]PUint32": true, "IntList": true, "Lists": true, "[]*Label": true, "map[string]*Label": true, "[]*PInt16": true}
 
 var chainDepths = []int{8, 15, 16, 17, 30, 31, 32, 33, 34, 35, 40, 63, 64, 65, 66, 100, 127, 128, 129, 130}
 
@@ -562,7 +562,7 @@ func (Engine) Run(c *simkit.Choices, x *simkit.Ctx) *simkit.Violation {
 	}
 	te := pickType(c, c.N(20) == 0)
 	if unfolderVariant != 0 && c.Bool() {
-		te = model.TypeByName([]string{"Score", "[]Score", "map[string]Score", "Scored", "Labeled", "Label", "Prims", "PInt16", "[]PUint32", "IntList", "Lists"}[c.N(11)])
+		te = model.TypeByName([]string{"Score", "[]Score", "map[string]Score", "Scored", "Labeled", "Label", "Prims", "PInt16", "[]PUint32", "IntList", "Lists", "[]*Label", "map[string]*Label", "[]*Score", "[]*PInt16", "map[string]*IntList"}[c.N(16)])
 		if c.N(3) == 0 {
 			te = &model.TreeEntry // nested activations of one user unfolder
 		}
